@@ -98,6 +98,40 @@ def build_harness(features=None, tag="default"):
     return os.path.join(tdir, "verif", "zkh")
 
 
+CFGH = os.path.join(VERIF, "cfgh")
+CFG_FEATURES = {"pm": ["--features", "pm"], "full": ["--features", "full"], "ark": ["--features", "ark"],
+                "stateless": ["--features", "stateless"], "optimal": []}
+
+
+def build_cfgh(configs):
+    """C17: the configuration harness, once per feature set of `rln`, against the current /repo; returns {config: binary}"""
+    res = {}
+    with Lock("cargo-cfgh"):
+        lock_dst = os.path.join(CFGH, "Cargo.lock")
+        if not os.path.exists(lock_dst):
+            shutil.copy(os.path.join(REPO, "Cargo.lock"), lock_dst)
+        tdir = os.path.join(CFGH, "target")
+        for c in configs:
+            cmd = ["cargo", "build", "--profile", "verif", "--offline"] + CFG_FEATURES[c]
+            rc, out = sh(cmd, cwd=CFGH, env={"RUSTFLAGS": "-Awarnings", "CARGO_TARGET_DIR": tdir}, timeout=3000)
+            if rc != 0:
+                res[c] = (None, out[-1500:])
+                continue
+            dst = os.path.join(tdir, f"cfgh-{c}")
+            shutil.copy(os.path.join(tdir, "verif", "cfgh"), dst)
+            res[c] = (dst, "")
+    return res
+
+
+def run_bin(binary, lines, timeout=3000):
+    data = ("\n".join(lines) + "\n").encode()
+    p = subprocess.run([binary], input=data, stdout=subprocess.PIPE, stderr=subprocess.PIPE, timeout=timeout)
+    out = p.stdout.decode().splitlines()
+    if len(out) < len(lines):
+        out = out + ["abort"] + ["not-run"] * (len(lines) - len(out) - 1)
+    return out[: len(lines)]
+
+
 def strip_lean_comments(src):
     src = re.sub(r"/-.*?-/", "", src, flags=re.S)
     return re.sub(r"--[^\n]*", "", src)
@@ -299,6 +333,22 @@ class Run:
         if not flat:
             return
         impl = run_impl(zkh, flat, impl_args, env=env)
+        # a crash that kills the harness process (abort across the FFI, stack overflow, allocation failure) loses the rest
+        # of the batch: keep the crashed sequence as it is and re-run the sequences after it in a fresh process
+        guard = 0
+        while "not-run" in impl or (impl and impl[-1] == "abort"):
+            g = impl.index("abort") if "abort" in impl else len(impl)
+            if g >= len(impl):
+                break
+            si = owner[g][0]
+            nxt = next((k for k in range(g, len(flat)) if owner[k][0] > si), None)
+            if nxt is None or guard > 50:
+                break
+            guard += 1
+            impl = impl[:nxt] + run_impl(zkh, flat[nxt:], impl_args, env=env)
+            # mark the handled crash so that the loop looks for the next one
+            impl[g] = "abort!"
+        impl = ["abort" if x == "abort!" else x for x in impl]
         model = run_lean("model", flat)
         specl = run_lean("spec", flat) if spec else model
         if canon:
@@ -319,7 +369,7 @@ class Run:
                 cls = r[1] if r[1] in ('err', 'panic', 'abort', 'accept', 'reject-false', 'reject-err', 'n/a', 'true', 'false') else 'ok'
                 self.hist(f"{name}:impl:{cls}")
             bad_spec = next((i for i, r in enumerate(rows) if "n/a" not in (r[4], r[3]) and r[4] != r[3]), None)
-            bad_model = next((i for i, r in enumerate(rows) if r[1] != "n/a" and r[1] != r[2]), None)
+            bad_model = next((i for i, r in enumerate(rows) if "n/a" not in (r[1], r[2]) and r[1] != r[2]), None)
             if bad_spec is not None:
                 fid = classify(seq, bad_spec, rows[bad_spec][1], rows[bad_spec][3]) if classify else None
                 if fid:
@@ -516,6 +566,8 @@ def setup():
     except Abort as e:
         print(e)
         return 1
+    for c, (b, err) in build_cfgh(list(CFG_FEATURES)).items():
+        print(f"[setup] configuration harness {c}: {'ok' if b else 'FAILED ' + err[-300:]}")
     print(f"[setup] done in {time.time() - t0:.0f}s")
     return 0
 
